@@ -123,7 +123,8 @@ theorem latest_loop (body : List Stmt)
     fields (the source of that method is tied by `relation_link_start_matches_source`). -/
 def multiEnv : Env :=
   { func := fun f args => match f, args with
-      | "RelationLink", [r, t] => some (.obj "RelationLink" 99 [("reference_node", r), ("_relation_type", t)])
+      | "RelationLink", [.tuple [.str "_reference_node", r], .tuple [.str "_relation_type", t]] =>
+          some (.obj "RelationLink" 99 [("reference_node", r), ("_relation_type", t)])
       | _, _ => Option.none
     method := fun recv m args => match recv, m, args with
       | .obj "RelationLink" _ [("reference_node", r), ("_relation_type", t)], "get_start_time", [.int d] =>
